@@ -14,6 +14,8 @@ use std::cell::RefCell;
 
 use batch::*;
 
+pub static THOROUGH: std::sync::atomic::AtomicBool = std::sync::atomic::AtomicBool::new(false);
+
 thread_local! {
     static LAST_PANIC: RefCell<String> = RefCell::new(String::new());
 }
@@ -58,6 +60,7 @@ fn cmd_check(args: &[String]) -> i32 {
     };
     let tier = arg(args, "--tier").or_else(|| std::env::var("VERIF_TIER").ok()).unwrap_or_else(|| "quick".into());
     let tier = if tier == "thorough" { "thorough" } else { "quick" };
+    THOROUGH.store(tier == "thorough", std::sync::atomic::Ordering::Relaxed);
     let seed: u64 = std::env::var("VERIF_SEED").ok().and_then(|s| s.parse().ok()).unwrap_or(1);
     let runs: u64 = arg(args, "--runs").and_then(|s| s.parse().ok()).unwrap_or_else(|| budgets(&prop, tier));
     let workers: usize = arg(args, "--workers").and_then(|s| s.parse().ok()).unwrap_or_else(|| std::thread::available_parallelism().map(|n| n.get()).unwrap_or(4).min(16));
